@@ -39,7 +39,8 @@ Record cmp_row := {
 (* one object of static storage duration *)
 Record static_row := {
   s_tu : string; s_name : string; s_type : string;
-  s_constexpr : bool; s_const : bool; s_static_local : bool; s_thread_local : bool
+  s_constexpr : bool; s_const : bool; s_static_local : bool; s_thread_local : bool;
+  s_mutable : bool                    (* its class has a `mutable` data member (directly, or in a member or base) *)
 }.
 
 (* one member function of a factory class *)
